@@ -3,12 +3,14 @@
    (2) apply_window on the recorded graph yields the windows the async steps saw (apply_window_spec, under non-decreasing seq_in, which msgs_law provides);
    (3) the compiled run satisfies the dataflow equations whenever check_sym accepts the instance (runner_dataflow) - validated on every instance;
    (4) two traces that satisfy the dataflow equations for the same windowed graph, step function and initial rng/state agree on every vertex all of whose
-   ancestors are covered (dataflow_unique).  (3)+(4) are composed into the closed statement C01_replay_unique (Replay.v) under the decidable hypothesis check_replay, which the
-   harness evaluates (extracted) on every instance; the asynchronous half (1)+(2) - that the recorded execution satisfies eq_at for the same (ts_c, wins_c) -
-   is stated by its component laws below and is not yet assembled into one Coq term (see DESIGN: _partial); the per-instance equality is decided by the
-   replay comparison of the harness. *)
+   ancestors are covered (dataflow_unique).  (1)-(4) are composed into the closed statement C01_replay_reproduces_async (ReplayAsync.v): asynchronous half AsyncDataflow.async_solves_dataflow
+   (every reachable state of the actor net), compiled half Replay.compiled_solves_dataflow + rank, uniqueness dataflow_unique_two.  Its hypotheses are decidable and are
+   discharged per instance: check_replay by the extracted checker on every instance of the harness, same_graph ("to_graph + apply_window + partitioning deliver the
+   recorded graph") by the replay comparison on the implementation (windows incl. seq/ts_sent/ts_recv of every executed row), supported by apply_window_spec,
+   window_is_lastn and check_schedule_sound.  What stays outside Coq: that rex's own Python to_graph/apply_window/supergraph code establishes same_graph for EVERY record
+   (it is validated, not proved), jit/XLA, floats off the lattice. *)
 From Coq Require Import List Arith ZArith Bool.
-From Rex Require Import KahnL AsyncModel2 AsyncStable ConflInv RexDet AsyncLaws AsyncLaws2 AsyncLaws3 AsyncLaws4 CompiledModel WindowSpec WindowPush RunnerSym CheckSym Dataflow Replay.
+From Rex Require Import KahnL AsyncModel2 AsyncStable ConflInv RexDet AsyncLaws AsyncLaws2 AsyncLaws3 AsyncLaws4 CompiledModel WindowSpec WindowPush RunnerSym CheckSym Dataflow Replay AsyncDataflow ReplayAsync.
 Open Scope Z_scope.
 
 (* uniqueness of solutions of the dataflow equations: two traces over the same windowed graph, step function and initial values agree wherever both are defined *)
@@ -59,3 +61,32 @@ Print Assumptions C01_check_replay_satisfiable.
 Theorem C01_replay_defined_somewhere : T_c ex_inst (2 :: 1 :: nil) Z probe (fun n : nat => 1 + nid ex_inst n) (fun n : nat => 3 + nid ex_inst n) 0 3 1%nat 2 <> None /\ wins_c ex_inst (2 :: 1 :: nil) 0 3 1 2 = (0%nat, (1, 74, 76) :: (2, 138, 140) :: nil) :: nil.
 Proof. exact @ex_replay_defined. Qed.
 Print Assumptions C01_replay_defined_somewhere.
+(* C01 CLOSED END TO END on the models: for every asynchronous system G, every reachable state s of its actor net (every recorded prefix, under every thread schedule), every compiled instance I, ring sizes and partition range: if check_replay accepts (i), the compiled graph is the recorded graph on the vertices the replay executes (ii: same_graph, decidable by same_graphb) and the node ids agree (iii), then on every vertex both executed the compiled replay has the same state-before and the same output as the recorded asynchronous step *)
+Theorem C01_replay_reproduces_async : forall (G : cfg) (s : state) (I : inst) (sizes : list Z) (p0 np : nat), reach G s -> check_replay I sizes p0 np = true -> same_graph G s I sizes p0 np -> (forall n : nat, n_nid (node G n) = nid I n) -> forall (n : nat) (k : Z) (x1 x2 : Z * Z), T_a G s n k = Some x1 -> Tc I sizes p0 np n k = Some x2 -> x1 = x2.
+Proof. exact @replay_reproduces_async. Qed.
+Print Assumptions C01_replay_reproduces_async.
+
+(* the asynchronous half: in every reachable state the recorded rows satisfy the dataflow equations of the windowed graph read off the record (state chain; output = step function of seq, start, state, windows; every window entry is the default or the output of the sender's recorded row of that seq) *)
+Theorem C01_async_solves_dataflow : forall (G : cfg) (s : state), reach G s -> forall (n : nat) (k : Z), (n < NN G)%nat -> eq_at Z fA (viA G) (vdA G) (ts_a G s) (wins_a G s) (T_a G s) n k.
+Proof. exact @async_solves_dataflow. Qed.
+Print Assumptions C01_async_solves_dataflow.
+
+(* hypothesis (ii) is decidable *)
+Theorem C01_same_graph_decidable : forall (G : cfg) (s : state) (I : inst) (sizes : list Z) (p0 np : nat), same_graphb G s I sizes p0 np = true -> same_graph G s I sizes p0 np.
+Proof. exact @same_graphb_sound. Qed.
+Print Assumptions C01_same_graph_decidable.
+
+(* non-vacuity: the compiled instance of the recorded two-node execution satisfies (i), (ii) and check_schedule *)
+Theorem C01_end_to_end_hypotheses_satisfiable : check_replay e2_inst (2 :: 1 :: nil) 0 3 = true /\ same_graphb exG exS e2_inst (2 :: 1 :: nil) 0 3 = true /\ check_schedule e2_inst = true.
+Proof. exact @e2_hyps. Qed.
+Print Assumptions C01_end_to_end_hypotheses_satisfiable.
+
+(* the theorem applied to that instance *)
+Theorem C01_end_to_end_instance : forall x1 x2 : Z * Z, T_a exG exS 1%nat 2 = Some x1 -> Tc e2_inst (2 :: 1 :: nil) 0 3 1%nat 2 = Some x2 -> x1 = x2.
+Proof. exact @e2_agree. Qed.
+Print Assumptions C01_end_to_end_instance.
+
+(* both executions define the vertex (node 1, seq 2) there *)
+Theorem C01_end_to_end_defined : T_a exG exS 1%nat 2 = Some (1943, 17693) /\ Tc e2_inst (2 :: 1 :: nil) 0 3 1%nat 2 = Some (1943, 17693).
+Proof. exact @e2_defined. Qed.
+Print Assumptions C01_end_to_end_defined.
